@@ -31,6 +31,6 @@ def one(d):
     json.dump(meta, open(meta_p, 'w'), indent=1)
     return (d.replace('/verif/seeded/', ''), meta['caught'], meta['own_check']['rules'], meta['all_checks']['properties_alarming'])
 dirs = [d for d in sorted(glob.glob('/verif/seeded/C*/*/')) if d.replace('/verif/seeded/', '').startswith(ONLY)]
-with ThreadPoolExecutor(max_workers=4) as ex:
+with ThreadPoolExecutor(max_workers=7) as ex:
     for row in ex.map(one, dirs):
         print(row); sys.stdout.flush()
